@@ -6,11 +6,31 @@ import gen
 import smtgen
 
 
+def _formals(params):
+    return [p_[0] for p_ in params if isinstance(p_, tuple) and p_ and isinstance(p_[0], str)] if isinstance(params, tuple) else []
+
+
+def plain(name):
+    """|x| and x are two spellings of one symbol"""
+    return name[1:-1] if len(name) >= 2 and name[0] == '|' and name[-1] == '|' else name
+
+
 def declared_names(shapes):
     names = []
     for c in shapes:
-        if isinstance(c, tuple) and len(c) >= 2 and c[0] in ('declare-const', 'declare-fun', 'define-fun', 'define-fun-rec', 'declare-sort',
-                                                              'define-sort') and isinstance(c[1], str):
+        if isinstance(c, tuple):
+            # comments are leaves of the tree, not part of the command
+            c = tuple(x for x in c if not (isinstance(x, str) and x.startswith(';')))
+        # formal parameters are bound in the body of the definition
+        if isinstance(c, tuple) and len(c) == 5 and c[0] in ('define-fun', 'define-fun-rec'):
+            names += _formals(c[2])
+        if isinstance(c, tuple) and len(c) == 3 and c[0] == 'define-funs-rec' and isinstance(c[1], tuple):
+            for d_ in c[1]:
+                if isinstance(d_, tuple) and len(d_) > 1:
+                    names += _formals(d_[1])
+        # a command of the wrong arity (a partially reduced form such as (define-fun f () Int) without body) declares nothing
+        ARITY = {'declare-const': 3, 'declare-fun': 4, 'define-fun': 5, 'define-fun-rec': 5, 'declare-sort': 3, 'define-sort': 4}
+        if isinstance(c, tuple) and len(c) >= 2 and c[0] in ARITY and len(c) == ARITY[c[0]] and isinstance(c[1], str):
             names.append(c[1])
         if isinstance(c, tuple) and len(c) == 3 and c[0] == 'declare-datatype' and isinstance(c[1], str):
             names.append(c[1])
@@ -84,7 +104,7 @@ def check_proposal(impl, P, exprs, in_shapes, in_ids, p):
         problems.append(f'the tree in memory differs from what a reader parses from the written file (leaves that are not single tokens: {bad[:3]})')
     # declarations: fresh, and before first use
     if s.fresh_vars and res is not exprs:
-        already = set(declared_names(in_shapes))
+        already = set(plain(n_) for n_ in declared_names(in_shapes))
         newdecl = [impl.to_shape(v) for v in s.fresh_vars]
         dn = [d_[1] for d_ in newdecl if isinstance(d_, tuple) and len(d_) >= 2 and isinstance(d_[1], str)]
         for name in sorted(set(n_ for n_ in dn if dn.count(n_) > 1)):
@@ -92,7 +112,7 @@ def check_proposal(impl, P, exprs, in_shapes, in_ids, p):
         for dshape in newdecl:
             if isinstance(dshape, tuple) and len(dshape) >= 2 and isinstance(dshape[1], str):
                 name = dshape[1]
-                if name in already:
+                if plain(name) in already:
                     problems.append(f'declares {name!r}, which is already declared in the input')
                 pos = next((i for i, c in enumerate(mem) if c == dshape), None)
                 first_use = next((i for i, c in enumerate(mem) if c != dshape and name in leaves(c, [])), None)
@@ -116,6 +136,11 @@ def run(ctx):
     total = 0
     per_mut = {}
     extra_inputs = [
+        # one symbol spelled with and without bars; a formal parameter with the derived name; a declaration with a comment inside
+        '(set-logic QF_BV)\n(declare-const |_v| (_ BitVec 8))\n(declare-const v (_ BitVec 8))\n(assert (= (bvadd v |_v|) #x01))\n(check-sat)\n',
+        '(set-logic ALL)\n(declare-const |s_prefix| String)\n(declare-const s String)\n(assert (str.contains s "a"))\n(assert (= s |s_prefix|))\n(check-sat)\n',
+        '(set-logic QF_BV)\n(declare-const v (_ BitVec 8))\n(define-fun f ((_v (_ BitVec 8))) (_ BitVec 8) (bvadd _v v))\n(assert (= (f v) #x01))\n(check-sat)\n',
+        '(set-logic QF_BV)\n(declare-const v (_ BitVec 8))\n(declare-const _v ; the reduced one\n (_ BitVec 8))\n(assert (= (bvadd v _v) #x01))\n(check-sat)\n',
         '(set-logic QF_S)\n(declare-const s String)\n(assert (str.contains s """x y"))\n(assert (= s "a\\u{1F600}b ""q"" ; ( "))\n(check-sat)\n(set-info :status sat)\n',
         '(set-logic QF_BV)\n(declare-const |a b| (_ BitVec 8))\n(declare-const v (_ BitVec 8))\n(assert (= (bvadd |a b| v) ((_ zero_extend 4) #xA)))\n(set-info :status sat)\n(check-sat)\n(set-info :late x)\n(assert (= v #x01))\n(check-sat)\n',
         '(set-logic LIA)\n(declare-const x Int)\n(declare-const _x Int)\n(assert (> (+ x _x 10) 100))\n(check-sat)\n',
